@@ -271,7 +271,7 @@ PROPS["C25"] = dict(
 
 MEMO_NOTE = "Native bounded harness (harness/memo_native.py): the real Memoer with scripted send/receive. "
 PROPS["C20"] = dict(
-    contracts=["contracts.memo_rx", "contracts.memo_size", "contracts.c20_rend"], harness="harness.memo_native:C20", level="other",
+    contracts=["contracts.memo_rx", "contracts.memo_size", "contracts.c20_rend", "contracts.c22_pick"], harness="harness.memo_native:C20", level="other",
     technique="contract-based deductive verification (pyvc) of Memoer.fuse (unbounded), _serviceOneReceived and _serviceOnceRxGrams (bounded-symbolic); bounded runtime "
               "contract (segment with the real rend, deliver in many orders with duplicates to the real receive path) for rend/pick and whole deliveries",
     trusted_base=['EXT receive() returns any (gram, src); pick(gram) returns any (mid, vid, gn, gc) or raises MemoerError/ValueError/LookupError: the header parsing and the signature check inside pick/wiff/verify are NOT under contract (regex, base64 and pysodium: native tier only)', 'bytes.decode raises UnicodeDecodeError or returns DEC(bytes) (uninterpreted)'],
@@ -293,15 +293,15 @@ PROPS["C21"] = dict(
                 "account ++ pending_after == pending_before on every normal return, a gram is dropped only for an unreachable-destination errno, pending remainder or gram on an open "
                 "transport is offered to send() in full and oldest first. " + MEMO_NOTE)
 PROPS["C22"] = dict(
-    contracts=["contracts.memo_rx"], harness="harness.memo_native:C22", level="other",
+    contracts=["contracts.memo_rx", "contracts.c22_pick"], harness="harness.memo_native:C22", level="other",
     technique="contract-based deductive verification (pyvc) of the table discipline of the receive side; bounded fault injection (single-byte mutations, truncations, random "
               "datagrams, second signer) on the real receive path for pick/wiff/verify",
     trusted_base=['EXT receive() returns any (gram, src); pick(gram) returns any (mid, vid, gn, gc) or raises MemoerError/ValueError/LookupError: the header parsing and the signature check inside pick/wiff/verify are NOT under contract (regex, base64 and pysodium: native tier only)', 'bytes.decode raises UnicodeDecodeError or returns DEC(bytes) (uninterpreted)'],
     assumptions=["at most 2 memo ids in flight, each with at most 2 stored grams", "cryptographic soundness is assumed of pysodium"],
-    explanation="PROVED, bounded-symbolic: whatever pick() raises among MemoerError/ValueError/LookupError, _serviceOneReceived returns True and touches no table (invalid grams are "
+    explanation="PROVED on arbitrary gram bytes, per header code of the real table and for unknown codes (base64 headers; contracts/c22_pick.py): Memoer.pick raises only MemoerError/ValueError/LookupError; refuses short grams, unknown codes and -- when signatures are required -- every unsigned code; returns the mid / signer / number / count fields of the header and leaves exactly the body; for a code with a signature it returns ONLY after verify(signer named by the gram, last az bytes, everything before them) returned, and verify\'s exception propagates. PROVED, bounded-symbolic: whatever pick() raises among MemoerError/ValueError/LookupError, _serviceOneReceived returns True and touches no table (invalid grams are "
                 "dropped, nothing escapes); the signer id and source recorded for a memo id are the FIRST ones (a later gram, valid or not, cannot re-bind them); the memo "
                 "delivered by _serviceOnceRxGrams carries exactly that stored signer and source; fuse raises only MemoerError, which _serviceOnceRxGrams turns into dropping "
-                "the memo. NOT under contract: the header parsing and signature verification inside pick/wiff/verify. " + MEMO_NOTE +
+                "the memo. NOT under contract: wiff (base64 vs binary detection), the binary-header branch of pick, and verify itself (pysodium). " + MEMO_NOTE +
                 "BOUNDED: every gram of valid signed and unsigned memos mutated (bit flips, byte substitutions, truncation, replacement) and delivered in and out of order, random "
                 "datagrams with valid and invalid codes, an attacker with its own key reusing an observed memo id: servicing must not raise and, when signatures are required, no "
                 "memo differing from the sent one is delivered.")
